@@ -76,6 +76,7 @@ func c02Run(t *testing.T, c c02Case, probe bool) int {
 	r := prepareScenario(sc)
 	defer r.close()
 	r.w.caseID = id
+	r.w.noViewMonitor = true // an outside writer acts behind a stale cache: the view is stale by construction
 	s := r.w.sim
 	gvr := sim.WidgetInfo.GVR()
 	ns := sc.ns()
